@@ -19,7 +19,8 @@ Status summary (see `C17_full` at the end). The LIVE model is the repaired worke
                                reproduced on the code before the repair), bf_terminates_partial_old,
                                c17_full_old_refuted
   sequential helpers         : seq_helper_eq_spec and its instances traversePaths_eq_spec, terminals_eq_spec,
-                               acyclicNodes_eq_spec, acyclicNodes_reachable_spec, intermediaryPaths_eq_spec (result = skip/limit window
+                               acyclicNodes_eq_spec, acyclicNodes_reachable_spec, terminals_reachable_spec,
+                               terminals_not_only_sinks, intermediaryPaths_eq_spec (result = skip/limit window
                                of the FILTERED DFS candidate sequence, all graphs/filters/skip/limit)
                                traversePaths_order_eq_spec, paths_fit_finite, c17_seq_paths (the DFS candidate
                                order of TraversePaths = the recursive path definition on every finite graph)
@@ -466,6 +467,128 @@ example :
                           helper := .nodes, nodeFilter := some (fun n => n != 2) }
     (Seq.accRun p 10 { stack := [{ root := 0, steps := [] }], visited := [] } []).1.stack = [] ∧
     (Seq.events p 10 { stack := [{ root := 0, steps := [] }], visited := [] }).map Seq.Seg.node = [1, 0, 3] := by decide
+
+/-- AcyclicTraverseTerminals, independent and ORDER-FREE characterisation (no user DescentFilter / PathFilter,
+DFS finished within the fuel; `R` any duplicate-free enumeration of the nodes reachable from the root,
+`indeg R v` = number of edges into `v` out of reachable nodes, with multiplicity):
+a node `v` is reported as a terminal iff
+  * `v` is the root and some reachable node has an edge into it, or
+  * `v` is not the root and either at least two edges out of reachable nodes lead into it (it is reached
+    again after it was expanded — whatever successors it has), or one such edge does and `v` has no successor.
+So "terminal = reachable node without successor" is what holds exactly when every node is reached over
+at most one edge (trees); on DAGs and cyclic graphs re-reached nodes are reported too, independently of
+the DFS order (see `terminals_not_only_sinks`). -/
+theorem terminals_reachable_spec (p : Seq.Plan) (hp : p.helper = .terminals) (hd : p.descentFilter = none)
+    (hpf : p.pathFilter = none) (root fuel : Nat)
+    (hdone : (Seq.accRun p fuel { stack := [{ root := root, steps := [] }], visited := [] } []).1.stack = [])
+    (R : List Nat) (hR : R.Nodup) (hmem : ∀ u, u ∈ R ↔ Seq.Reachable p.adj root u) :
+    ∀ v, v ∈ (Seq.events p fuel { stack := [{ root := root, steps := [] }], visited := [] }).map Seq.Seg.node ↔
+      ((v = root ∧ 1 ≤ Seq.indeg p.adj R v) ∨
+       (v ≠ root ∧ (2 ≤ Seq.indeg p.adj R v ∨ (1 ≤ Seq.indeg p.adj R v ∧ p.adj v = [])))) := by
+  let c0 : Seq.Core := { stack := [{ root := root, steps := [] }], visited := [] }
+  -- counting invariant of the terminals run
+  have h0 : Seq.TermInv p root c0 [] := by
+    refine ⟨?_, List.nodup_nil, Or.inl ⟨rfl, rfl, rfl⟩⟩
+    intro v
+    by_cases hv : v = root
+    · subst hv; simp [Seq.indeg, Seq.b2n, Seq.Seg.node, c0]
+    · have : ¬ root = v := fun h => hv h.symm
+      simp [Seq.indeg, Seq.b2n, Seq.Seg.node, hv, this, c0]
+  have hi := Seq.terminv_run p hp hd hpf root fuel c0 [] h0
+  have haccV := Seq.term_acc_visited p hp fuel c0 [] (fun s hs => by cases hs)
+  have hacc := Seq.accRun_events p fuel c0 []
+  simp only [List.nil_append] at hacc
+  -- the visited set is the reachable set (via the node-set helper's invariant on the same core)
+  have hcore := Seq.accRun_core_eq p hp fuel c0 [] []
+  have hn0 : Seq.NInv (Seq.asNodes p) root c0 [] := by
+    refine ⟨?_, ?_, ?_, ?_, ?_⟩
+    · intro s hs; simp [c0] at hs; subst hs; exact Seq.Reachable.refl
+    · intro u hu; cases hu
+    · intro u hu; cases hu
+    · intro v; simp [c0]
+    · right; exact ⟨_, List.mem_singleton.mpr rfl, rfl⟩
+  have hni := Seq.ninv_run (Seq.asNodes p) rfl hd root fuel c0 [] hn0
+  rw [← hcore] at hni
+  have hVreach : ∀ u, u ∈ (Seq.accRun p fuel c0 []).1.visited ↔ Seq.Reachable p.adj root u := by
+    intro u
+    constructor
+    · exact hni.reachV u
+    · intro hu
+      induction hu with
+      | refl =>
+        rcases hni.root with h | ⟨s, hs, _⟩
+        · exact h
+        · rw [hdone] at hs; cases hs
+      | step _ hv ih =>
+        rcases hni.closed _ ih _ hv with h | ⟨s, hs, _⟩
+        · exact h
+        · rw [hdone] at hs; cases hs
+  have hperm : (Seq.accRun p fuel c0 []).1.visited.Perm R :=
+    (List.perm_ext_iff_of_nodup hi.nodup hR).mpr (fun u => by rw [hVreach, hmem])
+  have hind : ∀ v, Seq.indeg p.adj (Seq.accRun p fuel c0 []).1.visited v = Seq.indeg p.adj R v := by
+    intro v; exact (hperm.flatMap_right _).count_eq v
+  have hrootV : root ∈ (Seq.accRun p fuel c0 []).1.visited := by
+    rcases hi.phase with ⟨h1, _, _⟩ | ⟨h1, _⟩
+    · rw [hdone] at h1; cases h1
+    · exact h1
+  intro v
+  have heq := hi.eqn v
+  rw [hdone, hind v, hacc] at heq
+  simp only [List.map_nil, List.count_nil, Nat.add_zero] at heq
+  have hpos : v ∈ (Seq.events p fuel c0).map Seq.Seg.node ↔ 1 ≤ ((Seq.events p fuel c0).map Seq.Seg.node).count v := by
+    rw [← List.count_pos_iff]; exact Iff.rfl
+  have hTV : 1 ≤ ((Seq.events p fuel c0).map Seq.Seg.node).count v → v ∈ (Seq.accRun p fuel c0 []).1.visited := by
+    intro h1
+    obtain ⟨s, hs, rfl⟩ := List.mem_map.mp (List.count_pos_iff.mp h1)
+    exact haccV s (by rw [hacc]; exact hs)
+  rw [hpos]
+  by_cases hvV : v ∈ (Seq.accRun p fuel c0 []).1.visited
+  · by_cases hvr : v = root
+    · subst hvr
+      simp [Seq.b2n, hvV] at heq
+      constructor
+      · intro h; left; exact ⟨rfl, by omega⟩
+      · rintro (⟨_, h⟩ | ⟨h, _⟩)
+        · omega
+        · exact absurd rfl h
+    · by_cases hsink : p.adj v = []
+      · simp [Seq.b2n, hvV, hvr, hsink] at heq
+        constructor
+        · intro h; right; exact ⟨hvr, Or.inr ⟨by omega, hsink⟩⟩
+        · rintro (⟨h, _⟩ | ⟨_, h | ⟨h, _⟩⟩)
+          · exact absurd h hvr
+          · omega
+          · omega
+      · simp [Seq.b2n, hvV, hvr, hsink] at heq
+        constructor
+        · intro h; right; exact ⟨hvr, Or.inl (by omega)⟩
+        · rintro (⟨h, _⟩ | ⟨_, h | ⟨_, h⟩⟩)
+          · exact absurd h hvr
+          · omega
+          · exact absurd h hsink
+  · have hvr : v ≠ root := fun h => hvV (h ▸ hrootV)
+    have hT0 : ((Seq.events p fuel c0).map Seq.Seg.node).count v = 0 := by
+      by_contra hne; exact hvV (hTV (by omega))
+    simp [Seq.b2n, hvV, hvr, hT0] at heq
+    constructor
+    · intro h; omega
+    · rintro (⟨h, _⟩ | ⟨_, h | ⟨h, _⟩⟩)
+      · exact absurd h hvr
+      · omega
+      · omega
+
+/-- diamond with a tail 0→1, 0→2, 1→3, 2→3, 3→4 (a DAG) -/
+def diamondAdj : Nat → List (Nat × Nat) := fun n =>
+  if n = 0 then [(1, 1), (2, 2)] else if n = 1 then [(3, 3)] else if n = 2 then [(4, 3)] else if n = 3 then [(5, 4)] else []
+
+/-- "terminal = reachable node without successor" is FALSE already on DAGs: in the diamond the join node 3 is
+reported (it is reached a second time) although it has the successor 4; 4 is the only sink. In agreement with
+`terminals_reachable_spec`: indeg 3 = 2, indeg 4 = 1 and 4 has no successor. -/
+theorem terminals_not_only_sinks :
+    let p : Seq.Plan := { adj := diamondAdj, helper := .terminals }
+    (Seq.accRun p 12 { stack := [{ root := 0, steps := [] }], visited := [] } []).1.stack = [] ∧
+    (Seq.events p 12 { stack := [{ root := 0, steps := [] }], visited := [] }).map Seq.Seg.node = [4, 3] ∧
+    diamondAdj 3 ≠ [] ∧ Seq.indeg diamondAdj [0, 1, 2, 3, 4] 3 = 2 ∧ Seq.indeg diamondAdj [0, 1, 2, 3, 4] 4 = 1 := by decide
 
 /-- TraverseIntermediaryPaths: the returned paths, in order -/
 theorem intermediaryPaths_eq_spec (p : Seq.Plan) (_hp : p.helper = .intermediary) (root : Nat) (skip limit : Int) (fuel : Nat) :
